@@ -348,6 +348,135 @@ def fixed_cases():
     return cs
 
 
+# ------------------------------------------------------------------------------------------
+# deeply nested containers: traverse_objects must reach a reference however deep it sits inside the direct arrays /
+# dictionaries of an object.  Level 1 is the holder's own container (the value of an indirect object, the dictionary
+# of a stream, the trailer dictionary, a page dictionary); `depth` is the level of the innermost container.  16 is the
+# deepest VALUE the crate's parser accepts (reader::MAX_NESTING); documents built in memory may nest deeper.
+# ------------------------------------------------------------------------------------------
+DEEP_DEPTHS = list(range(1, 19)) + [30, 100]
+DEEP_POS = ['obj', 'stream', 'trailer', 'page', 'chain']
+DEEP_SHAPES = ['arr', 'dict', 'alt', 'rand']
+
+
+def nest(rng, levels, shape, refs_at, first_level=1):
+    """`levels` containers inside one another (levels >= 1); the outermost is level `first_level`; refs_at(level) = the
+    values put directly into the container of that level (beside the next container).  None when levels == 0."""
+    inner = None
+    for level in range(first_level + levels - 1, first_level - 1, -1):
+        items = list(refs_at(level))
+        if rng.random() < 0.3:
+            items.append(I(level))
+        if inner is not None:
+            items.insert(rng.randint(0, len(items)), inner)     # the next level is first, last or in between
+        k = {'arr': 'a', 'dict': 'd', 'alt': 'ad'[level % 2]}.get(shape) or rng.choice('ad')
+        inner = A(items) if k == 'a' else D([('K%d' % j, v) for j, v in enumerate(items)])
+    return inner
+
+
+def deep_case(rng, depth, pos, shape, mode, start=None, sparse=None):
+    """a small document (catalog, one Pages node, two pages out of id order) with ONE deep structure of `depth` levels:
+       pos  = obj (value of an indirect object the catalog names) | stream (level 1 = the dictionary of a stream object)
+            | trailer (level 1 = the trailer dictionary) | page (level 1 = a page dictionary)
+            | chain (an object reachable only through the innermost reference of another deep object holds one itself);
+       mode = inner (one reference, in the innermost container) | every (a reference at every level) | both.
+    The innermost container always holds a reference to a target reachable ONLY from there, which in turn names a second
+    object reachable only through it; every target's number changes under the renumbering (sparse ids, start chosen so)."""
+    n_t = 4
+    n_hold = 2 if pos == 'chain' else 1
+    total = 4 + n_t + n_hold
+    while True:
+        ids = pick_ids(rng, total, sparse or rng.choice(['sparse', 'sparse', 'high', 'samenum', 'dense1']))
+        order = sorted(ids)
+        shuffled = list(ids)
+        rng.shuffle(shuffled)
+        cat, root, p1, p2 = shuffled[:4]
+        targets = shuffled[4:4 + n_t]
+        holders = shuffled[4 + n_t:]
+        cands = [start] if start is not None else [1, 1, 2, 0, 7, len(ids), 1000, rng.randint(0, 60), U32 - total]
+        rng.shuffle(cands)
+        st = next((s for s in cands if all(s + order.index(t) != t[0] for t in targets + holders)), None)
+        if st is not None:
+            break
+        if start is not None:
+            sparse = 'high'
+    only, second, shared, other = targets
+    def refs_at(depth_):
+        def f(level):
+            out = []
+            if level == depth_:
+                out.append(REF(*only))
+                if mode != 'inner' or rng.random() < 0.5:
+                    out.append(REF(*rng.choice([shared, p1, p2, cat])))
+            elif mode in ('every', 'both') or (mode == 'some' and rng.random() < 0.4):
+                out.append(REF(*rng.choice([shared, other, p1, p2, root])))
+            return out
+        return f
+    page = lambda p, extra=(): D([('Type', N('Page')), ('Parent', REF(*root))] + list(extra))
+    objects = [(only, D([('Tag', S(b'only')), ('Next', REF(*second))])),
+               (second, D([('Tag', S(b'second')), ('Back', A([REF(*only), REF(*p2)]))])),
+               (shared, ST([('Length', I(1))], b's')),
+               (other, A([I(1), REF(*shared)]))]
+    cat_ent = [('Type', N('Catalog')), ('Pages', REF(*root)), ('Shared', REF(*shared)), ('Other', REF(*other))]
+    trailer = [('Root', REF(*cat))]
+    page_extra = []
+    if pos in ('obj', 'chain'):
+        objects.append((holders[0], nest(rng, depth, shape, refs_at(depth))))
+        cat_ent.append(('Deep', REF(*holders[0])))
+        if pos == 'chain':
+            # `second` is replaced: the only way to the second holder is the innermost reference of the first
+            objects[0] = (only, D([('Tag', S(b'only')), ('Next', REF(*holders[1]))]))
+            d2 = rng.choice([depth, depth, 16, max(1, depth - 1)])
+            def f2(level):
+                return [REF(*second)] if level == d2 else []
+            objects.append((holders[1], nest(rng, d2, rng.choice(DEEP_SHAPES), f2)))
+    else:
+        inner = nest(rng, depth - 1, shape, refs_at(depth), first_level=2)
+        ent = ([('Deep', inner)] if inner is not None else []) + [('R%d' % j, v) for j, v in enumerate(refs_at(depth)(1))]
+        if pos == 'stream':
+            objects.append((holders[0], ST([('Length', I(2))] + ent, b'dd')))
+            cat_ent.append(('Deep', REF(*holders[0])))
+        elif pos == 'trailer':
+            trailer += ent
+            objects.append((holders[0], D([('Unused', B(True))])))
+        else:
+            page_extra = ent
+            objects.append((holders[0], D([('Unused', B(True))])))
+    objects += [(cat, D(cat_ent)),
+                (root, D([('Type', N('Pages')), ('Kids', A([REF(*p1), REF(*p2)])), ('Count', I(2))])),
+                (p1, page(p1, page_extra)), (p2, page(p2))]
+    rng.shuffle(objects)
+    specs = [L('none', OID(*only))] if rng.random() < 0.3 else []
+    return make_case(objects, trailer, specs, st)
+
+
+def deep_cases(rng, tier):
+    cs = []
+    reps = 1 if tier == 'quick' else 12
+    for _ in range(reps):
+        for depth in DEEP_DEPTHS:
+            for pos in DEEP_POS:
+                shape = rng.choice(DEEP_SHAPES)
+                mode = rng.choice(['inner', 'every', 'both', 'some'])
+                cs.append((deep_case(rng, depth, pos, shape, mode),
+                           {'kind': 'deep-%s-%s' % (pos, 'le15' if depth <= 15 else '16' if depth == 16 else 'gt16'), 'nontrivial': True}))
+    return cs
+
+
+def deep_fixed_cases():
+    """exactly 16 levels (the deepest value the parser accepts), one reference in the innermost container, every shape and
+    every position, ids 10, 20, .. renumbered from 1; plus 15 and 17 levels"""
+    import random
+    rng = random.Random(1016)
+    cs = []
+    for depth in (16, 15, 17):
+        for pos in DEEP_POS:
+            for shape in (DEEP_SHAPES if depth == 16 else ['alt']):
+                cs.append((deep_case(rng, depth, pos, shape, 'inner', start=1, sparse='sparse'),
+                           {'kind': 'fixed-deep-%s-%d' % (pos, depth), 'nontrivial': True}))
+    return cs
+
+
 def pick_max_id(rng, objects):
     """max_id as found in real documents: the highest number in use, or higher (ids reserved by new_object_id, objects
     added and deleted again), or stale / never set (lower than the numbers in use)"""
@@ -357,7 +486,7 @@ def pick_max_id(rng, objects):
 
 def gen_cases(rng, tier):
     n = 400 if tier == 'quick' else 12000
-    cases = fixed_cases()
+    cases = fixed_cases() + deep_fixed_cases() + deep_cases(rng, tier)
     # documents whose numbers are ALREADY consecutive from the start value (the dense pass has nothing to move; the
     # page pass may) while max_id is not the last number
     for k in range(n // 8):
@@ -476,6 +605,12 @@ SPEC = {
             'StructTreeRoot/ParentTree), the trailer or a page, with chains of objects reachable ONLY through such arrays; '
             'max_id equal to / above (reserved ids, deleted objects) / below the highest number in use; documents already '
             'consecutive from the start value (dense pass has nothing to move) with a stale max_id; '
+            'deep nesting: one structure of direct arrays / dictionaries (arrays only, dictionaries only, alternating, random) '
+            '1..18, 30 and 100 levels deep (16 = the deepest value the parser accepts, reader::MAX_NESTING; deeper ones exist '
+            'only in memory) as the value of an indirect object, under the dictionary of a stream, of the trailer, of a page, '
+            'and chained (a second deep object reachable only through the innermost reference of the first), with a '
+            'reference in the innermost container to an object reachable only from there, optionally references at every '
+            'level, all targets changing their number; 30 fixed cases of 15 / 16 / 17 levels; '
             '8% damaged page trees; 22 fixed boundary cases; non-trivial = at least 3 objects; distinct = distinct case text',
     'extra_trusted': ['C10: traverse_objects is modelled for actions that rename a reference or overwrite it with Null (both actions used by renumbering)',
                       'C10: HashMap<u32, Bookmark> modelled as an association list printed in key order'],
